@@ -2620,3 +2620,377 @@ async fn rebroadcast_payload_that_is_no_transaction_does_not_stop_the_node() {
     let result = AssertUnwindSafe(t.add_block(c)).catch_unwind().await;
     if !(result.is_ok()) { witness(format!("adding the peer's block 6 (a golden ticket on top of block 5) panicked the node: Block::find_winning_router decodes the 3-byte rebroadcast payload [1,2,3] of block 5 with Transaction::deserialize_from_net(..).expect(\"buffer to be valid\"); bytes chosen by a peer must be rejected with an error, never crash the decoder's caller")); }
 }
+
+/// C01: the fee transaction — exempt from every per-transaction check — spends nothing: the expected fee transaction with its payouts
+/// moved to the input side (same hash: inputs and outputs are hashed together without counts) is refused — scenario of an independent audit
+#[tokio::test]
+#[serial_test::serial]
+async fn fee_transaction_with_inputs_is_refused() {
+    #[allow(unused_imports)] use crate::core::util::test::test_manager::test::TestManager;
+    #[allow(unused_imports)] use crate::core::consensus::slip::Slip;
+    #[allow(unused_imports)] use crate::core::consensus::slip::SlipType;
+    #[allow(unused_imports)] use crate::core::defs::PrintForLog;
+    #[allow(unused_imports)] use crate::core::consensus::transaction::TransactionType;
+    #[allow(unused_imports)] use crate::core::consensus::block::Block;
+    #[allow(unused_imports)] use crate::core::consensus::blockchain::AddBlockResult;
+    use std::ops::Deref;
+
+    let mut t = TestManager::default();
+    t.initialize(100, 1_000_000_000).await;
+    let ts = t.get_latest_block().await.timestamp;
+    let (public_key, private_key) = {
+        let wallet = t.wallet_lock.read().await;
+        (wallet.public_key, wallet.private_key)
+    };
+
+    // honest chain: every block carries one transaction paying a fee of 100 and a golden ticket.
+    // we go on until two consecutive blocks pay out the same amounts (the payout cap makes them constant)
+    let mut victim_block_id = 0;
+    let mut victim_outputs: Vec<Slip> = vec![];
+    for i in 1..=8u64 {
+        let parent = t.get_latest_block_hash().await;
+        let mut block = t
+            .create_block(parent, ts + i * 120_000, 1, 1_000, 100, true)
+            .await;
+        // (the test builder hands its golden ticket to Block::create as a pooled transaction, so the
+        // block claims its parent's fees as unpaid although the ticket pays them out)
+        block.previous_block_unpaid = 0;
+        block.generate().unwrap();
+        block.sign(&private_key);
+        let result = t.add_block(block).await;
+        assert!(
+            matches!(
+                result,
+                crate::core::consensus::blockchain::AddBlockResult::BlockAddedSuccessfully(..)
+            ),
+            "setup: honest block {} is added",
+            i + 1
+        );
+        let latest = t.get_latest_block().await;
+        let previous_outputs = victim_outputs.clone();
+        victim_outputs = latest
+            .transactions
+            .iter()
+            .find(|tx| tx.transaction_type == TransactionType::Fee)
+            .map(|tx| tx.to.clone())
+            .unwrap_or_default();
+        victim_block_id = latest.id;
+        if !victim_outputs.is_empty()
+            && victim_outputs.len() == previous_outputs.len()
+            && victim_outputs.iter().zip(previous_outputs.iter()).all(|(a, b)| {
+                a.amount > 0
+                    && a.amount == b.amount
+                    && a.public_key == b.public_key
+                    && a.slip_type == b.slip_type
+                    && a.slip_index == b.slip_index
+            })
+        {
+            break;
+        }
+    }
+    assert!(
+        !victim_outputs.is_empty(),
+        "setup: the tip pays out the same amounts as its parent"
+    );
+
+    // the next honest block (control) and its fee transaction
+    let parent = t.get_latest_block_hash().await;
+    let mut honest = t
+        .create_block(parent, ts + 20 * 120_000, 1, 1_000, 100, true)
+        .await;
+    honest.previous_block_unpaid = 0;
+    honest.generate().unwrap();
+    honest.sign(&private_key);
+    let ft_index = honest
+        .transactions
+        .iter()
+        .position(|tx| tx.transaction_type == TransactionType::Fee)
+        .expect("setup: honest block has a fee transaction");
+    let expected_payouts = honest.transactions[ft_index].to.clone();
+    assert_eq!(expected_payouts.len(), victim_outputs.len());
+    for (a, b) in expected_payouts.iter().zip(victim_outputs.iter()) {
+        assert_eq!(
+            (a.public_key, a.amount, a.slip_type, a.slip_index),
+            (b.public_key, b.amount, b.slip_type, b.slip_index),
+            "setup: the payouts due in the new block equal the payouts of block {}",
+            victim_block_id
+        );
+    }
+
+    // hostile edit: the producer moves the outputs of the fee transaction into its inputs and points them
+    // at the payouts block `victim_block_id` made. the bytes Block::validate compares with the fee
+    // transaction it computes itself (serialize_for_signature) stay the same: they carry neither the number of
+    // inputs/outputs nor the block id / transaction ordinal of an input
+    let mut forged = honest.clone();
+    {
+        let fee_tx = &mut forged.transactions[ft_index];
+        fee_tx.from = victim_outputs.clone();
+        fee_tx.to = vec![];
+    }
+    forged.merkle_root = forged.generate_merkle_root(false, false);
+    forged.generate().unwrap();
+    forged.sign(&private_key);
+
+    let configs = t.config_lock.read().await;
+    let blockchain = t.blockchain_lock.read().await;
+
+    for slip in victim_outputs.iter() {
+        assert_eq!(
+            blockchain.utxoset.get(&slip.get_utxoset_key()),
+            Some(&true),
+            "setup: payout {}-{}-{} of block {} is unspent",
+            slip.block_id,
+            slip.tx_ordinal,
+            slip.slip_index,
+            victim_block_id
+        );
+    }
+
+    let honest_valid = honest
+        .validate(&blockchain, &blockchain.utxoset, configs.deref(), &t.storage, true)
+        .await;
+    assert!(honest_valid, "control: the honest block validates");
+
+    let forged_valid = forged
+        .validate(&blockchain, &blockchain.utxoset, configs.deref(), &t.storage, true)
+        .await;
+
+    // what applying the forged block does to the ledger
+    let mut utxoset_after = blockchain.utxoset.clone();
+    forged.on_chain_reorganization(&mut utxoset_after, true);
+    let still_there = victim_outputs
+        .iter()
+        .filter(|slip| utxoset_after.contains_key(&slip.get_utxoset_key()))
+        .count();
+    let new_payouts = utxoset_after
+        .keys()
+        .filter(|key| Slip::parse_slip_from_utxokey(key).unwrap().block_id == forged.id)
+        .filter(|key| {
+            let slip = Slip::parse_slip_from_utxokey(key).unwrap();
+            slip.slip_type == SlipType::MinerOutput || slip.slip_type == SlipType::RouterOutput
+        })
+        .count();
+
+    if !(!forged_valid) { witness(format!("Block::validate accepted block {} whose Fee transaction has {} inputs and no output: the inputs name the unspent payouts {}-{}-x (amounts {:?}) that block {} made to key {}, nobody signed for them (the transaction carries the producer's signature only and a Fee transaction is exempt from the signature, ownership, utxo and double-spend checks), and applying the block leaves {} of these {} outputs in the utxoset and creates {} of the {} payouts that are due: outputs are spent without the owner's authorisation through a privileged transaction type", forged.id, forged.transactions[ft_index].from.len(), victim_block_id, victim_outputs[0].tx_ordinal, victim_outputs.iter().map(|s| s.amount).collect::<Vec<_>>(), victim_block_id, public_key.to_base58(), still_there, victim_outputs.len(), new_payouts, expected_payouts.len())); }
+}
+
+/// C01: no output is spent twice inside a block — NFT (Bound) slips with an amount included — scenario of an independent audit
+#[tokio::test]
+#[serial_test::serial]
+async fn nft_slip_cannot_be_spent_twice_in_one_block() {
+    #[allow(unused_imports)] use crate::core::util::crypto::generate_keys;
+    #[allow(unused_imports)] use crate::core::consensus::wallet::Wallet;
+    #[allow(unused_imports)] use crate::core::util::test::test_manager::test::TestManager;
+    #[allow(unused_imports)] use crate::core::consensus::slip::Slip;
+    #[allow(unused_imports)] use crate::core::consensus::slip::SlipType;
+    #[allow(unused_imports)] use crate::core::consensus::transaction::Transaction;
+    #[allow(unused_imports)] use crate::core::consensus::transaction::TransactionType;
+    #[allow(unused_imports)] use crate::core::consensus::block::Block;
+    #[allow(unused_imports)] use crate::core::consensus::block::BlockType;
+    use crate::core::consensus::blockchain::AddBlockResult;
+    use std::ops::Deref;
+
+    // puts extra transactions in front of the transactions of a block the test builder made, and passes
+    // the result through the wire format, so that the node sees it as it would see a block fetched from a peer
+    fn with_transactions(
+        block: &Block,
+        transactions: Vec<Transaction>,
+        private_key: &SaitoPrivateKey,
+    ) -> Block {
+        let mut block = block.clone();
+        for (i, tx) in transactions.into_iter().enumerate() {
+            block.transactions.insert(i, tx);
+        }
+        block.merkle_root = [0; 32];
+        block.generate().unwrap();
+        block.sign(private_key);
+        let mut block =
+            Block::deserialize_from_net(&block.serialize_for_net(BlockType::Full)).unwrap();
+        block.generate().unwrap();
+        block
+    }
+
+    let mut t = TestManager::default();
+    t.initialize(10, 1_000_000_000).await;
+    let ts = t.get_latest_block().await.timestamp;
+    let (public_key, private_key) = {
+        let wallet = t.wallet_lock.read().await;
+        (wallet.public_key, wallet.private_key)
+    };
+    let recipient_c = generate_keys().0;
+    let recipient_d = generate_keys().0;
+
+    // an unspent normal output of the wallet in block 1
+    let funding: Slip = {
+        let blockchain = t.blockchain_lock.read().await;
+        blockchain
+            .utxoset
+            .iter()
+            .filter(|(_, spendable)| **spendable)
+            .map(|(key, _)| Slip::parse_slip_from_utxokey(key).unwrap())
+            .find(|slip| slip.public_key == public_key && slip.slip_type == SlipType::Normal)
+            .expect("setup: the wallet owns a normal output")
+    };
+
+    // block 2 creates an NFT from it: [Bound (amount 1), Normal (deposit 1000), Bound (id, amount 0)] + change
+    let nft_id = Wallet::create_nft_uuid(&funding, "demo");
+    let mut create_tx = Transaction::default();
+    create_tx.transaction_type = TransactionType::Bound;
+    create_tx.add_from_slip(funding.clone());
+    create_tx.add_to_slip(Slip {
+        public_key,
+        amount: 1,
+        slip_type: SlipType::Bound,
+        ..Default::default()
+    });
+    create_tx.add_to_slip(Slip {
+        public_key,
+        amount: 1_000,
+        ..Default::default()
+    });
+    create_tx.add_to_slip(Slip {
+        public_key: nft_id,
+        amount: 0,
+        slip_type: SlipType::Bound,
+        ..Default::default()
+    });
+    create_tx.add_to_slip(Slip {
+        public_key,
+        amount: funding.amount - 1_000,
+        ..Default::default()
+    });
+    create_tx.sign(&private_key);
+
+    let parent = t.get_latest_block_hash().await;
+    let block2 = t.create_block(parent, ts + 120_000, 0, 0, 0, true).await;
+    let block2 = with_transactions(&block2, vec![create_tx], &private_key);
+    let result = t.add_block(block2).await;
+    assert!(
+        matches!(result, AddBlockResult::BlockAddedSuccessfully(_, true, _)),
+        "setup: block 2 with the NFT-creating transaction is added"
+    );
+
+    // the three outputs of the NFT as they stand in block 2
+    let (slip1, slip2, slip3) = {
+        let block2 = t.get_latest_block().await;
+        let tx = block2
+            .transactions
+            .iter()
+            .find(|tx| tx.transaction_type == TransactionType::Bound)
+            .unwrap();
+        (tx.to[0].clone(), tx.to[1].clone(), tx.to[2].clone())
+    };
+    {
+        let blockchain = t.blockchain_lock.read().await;
+        assert_eq!(slip1.slip_type, SlipType::Bound);
+        assert_eq!(slip1.amount, 1);
+        assert_eq!(
+            blockchain.utxoset.get(&slip1.get_utxoset_key()),
+            Some(&true),
+            "setup: the Bound output {}-{}-{} of amount 1 is in the utxoset, unspent",
+            slip1.block_id,
+            slip1.tx_ordinal,
+            slip1.slip_index
+        );
+    }
+
+    // transfer A: the regular transfer of the NFT to C (spends all three outputs)
+    let mut send_a = Transaction::default();
+    send_a.transaction_type = TransactionType::Bound;
+    send_a.add_from_slip(slip1.clone());
+    send_a.add_from_slip(slip2.clone());
+    send_a.add_from_slip(slip3.clone());
+    send_a.add_to_slip(Slip {
+        block_id: 0,
+        tx_ordinal: 0,
+        ..slip1.clone()
+    });
+    send_a.add_to_slip(Slip {
+        public_key: recipient_c,
+        amount: slip2.amount,
+        ..Default::default()
+    });
+    send_a.add_to_slip(Slip {
+        block_id: 0,
+        tx_ordinal: 0,
+        ..slip3.clone()
+    });
+    send_a.sign(&private_key);
+
+    // transfer B: spends the same Bound output a second time, to D. (its second input is a zero-amount
+    // stand-in at the position of the deposit, which no check looks up)
+    let mut send_b = Transaction::default();
+    send_b.transaction_type = TransactionType::Bound;
+    send_b.add_from_slip(slip1.clone());
+    send_b.add_from_slip(Slip {
+        public_key,
+        amount: 0,
+        block_id: slip2.block_id,
+        tx_ordinal: slip2.tx_ordinal,
+        slip_index: slip2.slip_index,
+        ..Default::default()
+    });
+    send_b.add_from_slip(slip3.clone());
+    send_b.add_to_slip(Slip {
+        block_id: 0,
+        tx_ordinal: 0,
+        ..slip1.clone()
+    });
+    send_b.add_to_slip(Slip {
+        public_key: recipient_d,
+        amount: 0,
+        ..Default::default()
+    });
+    send_b.add_to_slip(Slip {
+        block_id: 0,
+        tx_ordinal: 0,
+        ..slip3.clone()
+    });
+    send_b.sign(&private_key);
+
+    let parent = t.get_latest_block_hash().await;
+    let block3 = t.create_block(parent, ts + 240_000, 0, 0, 0, true).await;
+    let honest = with_transactions(&block3, vec![send_a.clone()], &private_key);
+    let hostile = with_transactions(&block3, vec![send_a, send_b], &private_key);
+
+    {
+        let configs = t.config_lock.read().await;
+        let blockchain = t.blockchain_lock.read().await;
+        let honest_valid = honest
+            .validate(&blockchain, &blockchain.utxoset, configs.deref(), &t.storage, true)
+            .await;
+        assert!(honest_valid, "control: block 3 with transfer A alone validates");
+    }
+
+    let spenders: Vec<usize> = hostile
+        .transactions
+        .iter()
+        .enumerate()
+        .filter(|(_, tx)| {
+            tx.from
+                .iter()
+                .any(|input| input.get_utxoset_key() == slip1.get_utxoset_key())
+        })
+        .map(|(i, _)| i)
+        .collect();
+    assert_eq!(spenders.len(), 2, "setup: two transactions of the block name the Bound output");
+
+    let result = t.add_block(hostile).await;
+
+    let copies = {
+        let blockchain = t.blockchain_lock.read().await;
+        blockchain
+            .utxoset
+            .iter()
+            .filter(|(_, spendable)| **spendable)
+            .map(|(key, _)| Slip::parse_slip_from_utxokey(key).unwrap())
+            .filter(|slip| {
+                slip.slip_type == SlipType::Bound
+                    && slip.public_key == slip1.public_key
+                    && slip.amount == slip1.amount
+            })
+            .count()
+    };
+
+    if !(!matches!(result, AddBlockResult::BlockAddedSuccessfully(..))) { witness(format!("block 3 was accepted as the tip although its transactions #{} and #{} both spend the Bound output {}-{}-{} (amount 1, in the utxoset once): an output spent twice inside one block; the utxoset now holds {} unspent Bound outputs of amount 1 for this NFT where there was 1 (Block::validate leaves Bound inputs out of its duplicate map, Block::generate closes its map after the first transaction)", spenders[0], spenders[1], slip1.block_id, slip1.tx_ordinal, slip1.slip_index, copies)); }
+}
